@@ -1,6 +1,179 @@
-From Coq Require Import ZArith List Bool.
+(* C15 — property theorems only.  Each is closed by [exact] of a lemma of Proofs.v and followed by
+   Print Assumptions. *)
+From Coq Require Import ZArith List Bool Permutation.
 From TV Require Import Common.Harness C15.Model C15.Law C15.Proofs.
 Import ListNotations.
-Theorem stub_thm : compile_str [CStart 97] = Graphs [G (NNamed [97%Z] true false) []].
-Proof. exact stub. Qed.
-Print Assumptions stub_thm.
+
+(* The model's parser accepts exactly the token lists the grammar of _dsl_grammar.lark derives, with that
+   derivation's tree (all token lists, all trees; the fuel 2|ts|+3 is proved sufficient). *)
+Theorem parse_sound : forall ts t, parse_toks ts = Some t -> D_start ts t.
+Proof. exact (parse_toks_gen_sound false). Qed.
+Print Assumptions parse_sound.
+
+Theorem parse_complete : forall ts t, D_start ts t -> parse_toks ts = Some t.
+Proof. exact (parse_toks_gen_complete false). Qed.
+Print Assumptions parse_complete.
+
+(* text level: a text is accepted iff it lexes to a derivable token list; everything else is rejected *)
+Theorem accepted_iff_derivable : forall s t, parse s = Some t <-> in_language false s t.
+Proof. exact parse_iff. Qed.
+Print Assumptions accepted_iff_derivable.
+
+(* the recogniser used by the law decides the documented language *)
+Theorem law_recogniser_decides_documented_language :
+  forall s ts t, doc_parse s = Some (ts, t) <-> lex s = Some ts /\ Doc_start ts t.
+Proof. exact doc_parse_iff. Qed.
+Print Assumptions law_recogniser_decides_documented_language.
+
+(* the lexer meets its declarative specification: NAME = [a-zA-Z_]\w* with longest match, the seven symbols,
+   whitespace ignored; every other text has no token list (lexer error -> ValueError) *)
+Theorem lexer_correct : forall s ts, lex s = Some ts <-> Spell ts s.
+Proof. exact lex_iff_spell. Qed.
+Print Assumptions lexer_correct.
+
+(* both grammars are unambiguous: one text, at most one tree *)
+Theorem parse_deterministic_tree : forall doc ts t1 t2, D_par doc true ts t1 -> D_par doc true ts t2 -> t1 = t2.
+Proof. exact derivation_unique. Qed.
+Print Assumptions parse_deterministic_tree.
+
+(* the parser's language lies inside the documented one ... *)
+Theorem accepted_is_documented : forall ts t, D_start ts t -> Doc_start ts t.
+Proof. exact lark_subset_doc. Qed.
+Print Assumptions accepted_is_documented.
+
+(* ... but not conversely (F10): "[a.*, b.c]" is documented and rejected *)
+Theorem bracketed_star_refuted :
+  exists t, Doc_start f10_tokens t /\ parse_toks f10_tokens = None /\
+            lex f10_text = Some f10_tokens /\ compile_str f10_text = Rejected.
+Proof. exact f10_refuted. Qed.
+Print Assumptions bracketed_star_refuted.
+
+(* in every accepted text each "*" stands outside all brackets and is followed by "," or the end *)
+Theorem star_only_terminal : forall ts t, D_start ts t -> star_ok 0 ts = true.
+Proof. exact star_only_terminal_lemma. Qed.
+Print Assumptions star_only_terminal.
+
+Theorem star_elsewhere_is_rejected : forall s ts, lex s = Some ts -> star_ok 0 ts = false -> compile_str s = Rejected.
+Proof. exact star_elsewhere_rejected. Qed.
+Print Assumptions star_elsewhere_is_rejected.
+
+(* what compile_str returns denotes exactly the documented paths, notify flags included (all trees) *)
+Theorem meaning : forall t gs, compile_tree t = Graphs gs -> flat_map graph_paths gs = doc_paths t.
+Proof. exact meaning_lemma. Qed.
+Print Assumptions meaning.
+
+Theorem notify_iff_last_or_dot : forall t p, In p (raw_paths t LEnd) ->
+  exists q m, p = q ++ [(m, LEnd)] /\ notify_of LEnd = true /\
+    Forall (fun ml => exists c, snd ml = LConn c /\ notify_of (snd ml) = conn_notifies c) q.
+Proof. exact notify_iff_last_or_dot_lemma. Qed.
+Print Assumptions notify_iff_last_or_dot.
+
+Theorem items_is_four_way : forall n,
+  paths (handle_tree TItems n) = [[NNamed items_word n true]; [NDict n true]; [NList n true]; [NSet n true]]
+  /\ raw_paths TItems LEnd = [[(MItemsTrait, LEnd)]; [(MDictItems, LEnd)]; [(MListItems, LEnd)]; [(MSetItems, LEnd)]].
+Proof. exact items_four_way. Qed.
+Print Assumptions items_is_four_way.
+
+(* compile_str can still refuse a derivable text (F17): "a.[b,b]" *)
+Theorem duplicate_branch_refuted :
+  exists t, in_language false f17_text t /\ in_language true f17_text t /\ compile_str f17_text = CompileError
+            /\ doc_paths t = [[NNamed [97%Z] true false; NNamed [98%Z] true false];
+                              [NNamed [97%Z] true false; NNamed [98%Z] true false]].
+Proof. exact f17_refuted. Qed.
+Print Assumptions duplicate_branch_refuted.
+
+(* equal patterns *)
+Theorem graphs_assoc : forall a b c br,
+  create_graphs (ESeries (ESeries a b) c) br = create_graphs (ESeries a (ESeries b c)) br
+  /\ create_graphs (EPar (EPar a b) c) br = create_graphs (EPar a (EPar b c)) br.
+Proof. intros. split; [apply series_assoc|apply par_assoc]. Qed.
+Print Assumptions graphs_assoc.
+
+Theorem brackets_irrelevant :
+  (forall ts t, parse_toks ts = Some t -> has_any t = false -> parse_toks (LBR :: ts ++ [RBR]) = Some t)
+  /\ (forall x c1 y c2 z n br, create_graphs (handle_tree (TSeries (TSeries x c1 y) c2 z) n) br =
+                                create_graphs (handle_tree (TSeries x c1 (TSeries y c2 z)) n) br)
+  /\ (forall x y z n br, create_graphs (handle_tree (TPar (TPar x y) z) n) br =
+                         create_graphs (handle_tree (TPar x (TPar y z)) n) br).
+Proof. split; [exact brackets_same_tree|split; [exact regroup_series|exact regroup_par]]. Qed.
+Print Assumptions brackets_irrelevant.
+
+Theorem whitespace_irrelevant :
+  (forall pre x r, is_symb x = true -> compile_str (pre ++ CWs :: x :: r) = compile_str (pre ++ x :: r)) /\
+  (forall pre x r, is_symb x = true -> compile_str (pre ++ x :: CWs :: r) = compile_str (pre ++ x :: r)) /\
+  (forall pre r, compile_str (pre ++ CWs :: CWs :: r) = compile_str (pre ++ CWs :: r)) /\
+  (forall s, compile_str (CWs :: s) = compile_str s) /\
+  (forall s, compile_str (s ++ [CWs]) = compile_str s).
+Proof. exact whitespace_lemma. Qed.
+Print Assumptions whitespace_irrelevant.
+
+Theorem parse_deterministic : forall s1 s2, s1 = s2 -> outcome_same (compile_str s1) (compile_str s2) = true.
+Proof. exact parse_deterministic_lemma. Qed.
+Print Assumptions parse_deterministic.
+
+(* F10 is the only gap between the documented language and the parser's: a documented text without a "*"
+   inside brackets is derivable in the parser's grammar (hence accepted, by parse_complete) *)
+Theorem documented_minus_bracketed_star_is_accepted :
+  forall ts t, Doc_start ts t -> star_in_brackets 0 ts = false -> D_start ts t.
+Proof. exact doc_minus_f10. Qed.
+Print Assumptions documented_minus_bracketed_star_is_accepted.
+
+(* F17 is the only way compile_str refuses a parsed text: some path is denoted twice *)
+Theorem compile_error_only_for_repeated_path : forall t, compile_tree t = CompileError -> has_dup (doc_paths t) = true.
+Proof. exact compile_error_dup. Qed.
+Print Assumptions compile_error_only_for_repeated_path.
+
+(* The law (Law.law_single), evaluated on the model's own outcome for ANY text, can only raise code 1 (F10) or
+   code 3 (F17): never "accepted outside the language", never a wrong path / notify flag, never another exception. *)
+Theorem model_satisfies_law : forall s c, In c (law_single s (compile_str s)) -> c = 1%Z \/ c = 3%Z.
+Proof. exact model_law. Qed.
+Print Assumptions model_satisfies_law.
+
+Theorem law_holds_outside_findings : forall s,
+  (forall ts, lex s = Some ts -> star_in_brackets 0 ts = false) -> compile_str s <> CompileError ->
+  law_single s (compile_str s) = [].
+Proof. exact model_law_clean. Qed.
+Print Assumptions law_holds_outside_findings.
+
+(* results equal by ObserverGraph.__eq__ denote the same paths (pair law, code 12) *)
+Theorem equal_patterns_same_paths : forall g1 g2, list_eqb graph_eqb g1 g2 = true ->
+  path_subset (flat_map graph_paths g1) (flat_map graph_paths g2) = true.
+Proof. exact equal_graphs_same_paths. Qed.
+Print Assumptions equal_patterns_same_paths.
+
+(* ObserverGraph.__eq__ (graph_eqb) is an equivalence relation that ignores the order of children; "a,b" and
+   "b,a" compile to the same graphs in another order *)
+Theorem pattern_equality_is_an_equivalence :
+  (forall g, graph_eqb g g = true) /\ (forall a b, graph_eqb a b = graph_eqb b a) /\
+  (forall a b c, graph_eqb a b = true -> graph_eqb b c = true -> graph_eqb a c = true) /\
+  (forall n cs cs', Permutation cs cs' -> graph_eqb (G n cs) (G n cs') = true).
+Proof. split; [exact graph_eqb_refl|split; [exact graph_eqb_sym|split; [exact graph_eqb_trans|exact graph_eqb_perm]]]. Qed.
+Print Assumptions pattern_equality_is_an_equivalence.
+
+Theorem parallel_commutes_up_to_order : forall a b br l, create_graphs (EPar a b) br = Some l ->
+  exists l', create_graphs (EPar b a) br = Some l' /\ Permutation l l'.
+Proof. exact par_comm. Qed.
+Print Assumptions parallel_commutes_up_to_order.
+
+(* the expression API (then, |, join, chaining methods): compile_expr's graphs denote exactly the paths of the
+   expression; it refuses only an expression that denotes a path twice (F17 again); the law on the model's
+   outcome of any expression can only raise code 3 *)
+Theorem expression_meaning : forall e,
+  (forall gs, create_graphs e [] = Some gs -> flat_map graph_paths gs = paths e) /\
+  (create_graphs e [] = None -> has_dup (paths e) = true).
+Proof. exact expr_meaning. Qed.
+Print Assumptions expression_meaning.
+
+Theorem model_satisfies_expression_law : forall e c,
+  In c (law_expr e (match create_graphs e [] with Some gs => Graphs gs | None => CompileError end)) -> c = 3%Z.
+Proof. exact expr_law. Qed.
+Print Assumptions model_satisfies_expression_law.
+
+(* Non-vacuity: "a:[b, items.c].*" is accepted; 5 paths; notify false on a, true elsewhere. *)
+Example accepted_nontrivial :
+  let s := [CStart 97; CColonC; CLbr; CStart 98; CCommaC; CWs; CStart 105; CStart 116; CStart 101; CStart 109;
+            CStart 115; CDotC; CStart 99; CRbr; CDotC; CStar] in
+  exists t gs, parse s = Some t /\ compile_str s = Graphs gs /\ length (doc_paths t) = 5%nat
+               /\ flat_map graph_paths gs = doc_paths t
+               /\ star_ok 0 [W [97%Z]; TC CColon; LBR; W [98%Z]; COMMA; W items_word; TC CDot; W [99%Z]; RBR; TC CDot; STAR] = true.
+Proof. vm_compute. eexists _, _. repeat split. Qed.
